@@ -7,9 +7,10 @@ Tensors are total functions of their indices over exact rationals (`Rat`); sizes
 explicitly.  The predicate tensor is `pred a b x y` = `pred_mat[a, b, x, y]` (Alice's answer, Bob's
 answer, Alice's question, Bob's question) and `prob x y` = `prob_mat[x, y]`.
 
-* `classicalValue`      — `NonlocalGame.classical_value` **as the code is** (including the bound
-                          `num_iterations = num_alice_outputs ** num_bob_inputs`);
-* `classicalValueFixed` — the same with the one-token repair `num_bob_outputs ** num_bob_inputs`;
+* `classicalValue`      — `NonlocalGame.classical_value` **as the code was before the fix** (with the bound
+                          `num_iterations = num_alice_outputs ** num_bob_inputs`; kept as documentation);
+* `classicalValueFixed` — the code as it is now: `num_iterations = num_bob_outputs ** num_bob_inputs`
+                          (this is what the state machine `step` uses);
 * `maxDetBrute`         — executable brute force over *all* pairs of deterministic answer functions;
 * `updateOdometer`, `productPred`, `productProb` — the `reps` branch of the constructor;
 * `bcsProb`, `bcsPred`  — `NonlocalGame.from_bcs_game`;
@@ -249,10 +250,13 @@ deriving DecidableEq, Repr
 
 /-- One method call.  The three SDP-based methods are not computed here: their return value is an
     arbitrary function `sdp` of the attributes read and of the arguments (what they are *bounded by*
-    is the business of the certificate part).  No method assigns to an attribute. -/
+    is the business of the certificate part).  No method assigns to an attribute.
+    `classical_value` is the code as it is **since the fix** of the iteration bound
+    (`num_bob_outputs ** num_bob_inputs`, mirror `classicalValueFixed`); the mirror of the earlier code,
+    `classicalValue`, and its counterexample are kept as the record of the regression the check must catch. -/
 def step (sdp : Game → Op → Option Rat) (g : Game) (op : Op) : Game × Option Rat :=
   match op with
-  | .classical => (g, classicalValue g.ao g.bo g.ai g.bi g.prob g.pred)
+  | .classical => (g, classicalValueFixed g.ao g.bo g.ai g.bi g.prob g.pred)
   | op => (g, sdp g op)
 
 /-- a history under an arbitrary method semantics `st`: the final object and the returned values -/
